@@ -1,23 +1,773 @@
 /* ext4.c -- iv_fd_pump (C17) and iv_inotify (C20) */
 #define _GNU_SOURCE
+#include <errno.h>
+#include <fcntl.h>
+#include <inttypes.h>
+#include <poll.h>
 #include <stdlib.h>
 #include <string.h>
+#include <sys/inotify.h>
+#include <sys/ioctl.h>
+#include <sys/socket.h>
+#include <sys/stat.h>
+#include <sys/syscall.h>
+#include <unistd.h>
+
+#include <iv.h>
+#include <iv_fd_pump.h>
+#include <iv_inotify.h>
+
 #include "engine.h"
 #include "ext.h"
 
-int ext4_live(int id) { (void)id; return 0; }
-int ext4_reg(struct rthr *th, int id, const struct pop *op) { (void)th; (void)id; (void)op; return 0; }
-int ext4_unreg(struct rthr *th, int id, int keep) { (void)th; (void)id; (void)keep; return 0; }
-int ext4_op(struct rthr *th, const struct pop *op) { (void)th; (void)op; return 0; }
-void ext4_cb(struct rthr *th, int id, int kind, int band, int64_t x1, int64_t x2) { (void)th; (void)id; (void)kind; (void)band; (void)x1; (void)x2; }
-void ext4_cb_exit(struct rthr *th, int id, int kind) { (void)th; (void)id; (void)kind; }
+/* =====================================================================================
+ * C17: iv_fd_pump
+ * ===================================================================================== */
+/* channel stream state (RO[chan].xi) */
+#define SX_WPOS		0	/* bytes of the stream written into the channel by the producer */
+#define SX_RPOS		1	/* bytes read and verified by the consumer */
+#define SX_PEOF		2	/* producer has closed / shut down its side */
+#define SX_CEOF		3	/* consumer has seen end-of-file */
+#define SX_CCLOSED	4	/* consumer closed its side early */
+
+struct pumpx {
+	struct iv_fd_pump	p;
+	struct iv_fd		fin, fout;
+	int			id, pollin, pollout, calls, done, errored, destroyed;
+	int			idle_calls, last_bytes, last_full, last_fin;
+	int64_t			last_wpos, last_rpos;
+	int			achan, bchan;
+};
+#define PX(o)	((struct pumpx *)(o)->mem)
+
+static uint8_t stream_byte(uint64_t seed, uint64_t pos)
+{
+	uint64_t s = seed * 0x9e3779b97f4a7c15ULL + (pos >> 3);
+	return (uint8_t)(sm64(&s) >> ((pos & 7) * 8));
+}
+
+void ext4_stream_fill(int chan, unsigned char *buf, long n)
+{
+	uint64_t seed = (uint64_t)PL->obj[chan].p[2];
+	long i;
+	for (i = 0; i < n; i++)
+		buf[i] = stream_byte(seed, (uint64_t)RO[chan].xi[SX_WPOS] + (uint64_t)i);
+}
+void ext4_stream_written(int chan, long n)
+{
+	if (n > 0) {
+		RO[chan].xi[SX_WPOS] += n;
+		PROBE[PR_PUMP_BYTES] += n;
+	}
+}
+
+static int pump_of_bchan(int chan)
+{
+	int i;
+	for (i = 0; i < PL->nobj; i++)
+		if (PL->obj[i].kind == K_PUMP && PL->obj[i].p[2] == chan)
+			return i;
+	return -1;
+}
+
+void ext4_stream_verify(int chan, const unsigned char *buf, long n)
+{
+	/* the consumer reads from the pump's output channel: the bytes must continue the stream that the
+	 * producer wrote into the pump's input channel */
+	int pid = pump_of_bchan(chan), a;
+	uint64_t seed;
+	long i;
+
+	if (pid < 0)
+		return;
+	a = (int)PL->obj[pid].p[0];
+	seed = (uint64_t)PL->obj[a].p[2];
+	if (n == 0) {
+		RO[chan].xi[SX_CEOF] = 1;
+		PROBE[PR_PUMP_EOF]++;
+		if (!RO[a].xi[SX_PEOF])
+			viol("C17.eof", "pump obj %d: the consumer saw end-of-file although the producer never ended the input", pid);
+		else if (RO[chan].xi[SX_RPOS] != RO[a].xi[SX_WPOS])
+			viol("C17.eof", "pump obj %d: end-of-file was relayed after %" PRId64 " of %" PRId64 " bytes", pid, RO[chan].xi[SX_RPOS], RO[a].xi[SX_WPOS]);
+		return;
+	}
+	for (i = 0; i < n; i++) {
+		uint64_t pos = (uint64_t)RO[chan].xi[SX_RPOS] + (uint64_t)i;
+		if (pos >= (uint64_t)RO[a].xi[SX_WPOS]) {
+			viol("C17.stream", "pump obj %d: the consumer received byte #%" PRIu64 " but only %" PRId64 " bytes were ever produced (duplication)", pid, pos, RO[a].xi[SX_WPOS]);
+			return;
+		}
+		if (buf[i] != stream_byte(seed, pos)) {
+			viol("C17.stream", "pump obj %d: byte #%" PRIu64 " received by the consumer is 0x%02x, the produced stream has 0x%02x there (loss, duplication or reordering)", pid, pos, buf[i], stream_byte(seed, pos));
+			return;
+		}
+	}
+	RO[chan].xi[SX_RPOS] += n;
+}
+
+void ext4_chan_closed(int chan, int end, int shut_wr_only)
+{
+	int i;
+	(void)shut_wr_only;
+	for (i = 0; i < PL->nobj; i++) {
+		if (PL->obj[i].kind != K_PUMP)
+			continue;
+		if (PL->obj[i].p[0] == chan && PL->obj[i].p[1] != end)
+			RO[chan].xi[SX_PEOF] = 1;	/* the producer's side of the input channel */
+		if (PL->obj[i].p[2] == chan && PL->obj[i].p[3] != end)
+			RO[chan].xi[SX_CCLOSED] = 1;	/* the consumer's side of the output channel */
+	}
+}
+
+static void pump_set_bands(void *cookie, int pollin, int pollout);
+static void pump_destroy(struct rthr *th, int id, int from_pump);
+
+static void pump_check_after(struct rthr *th, int id, int ret)
+{
+	struct robj *o = &RO[id];
+	struct pumpx *px = PX(o);
+	int a = px->achan, b = px->bchan;
+
+	(void)th;
+	if (ret == 1) {
+		int want_in = !px->p.full && px->p.saw_fin == 0;
+		int want_out = px->p.saw_fin == 1 ? 1 : px->p.bytes > 0;
+		if (px->p.saw_fin == 2)
+			viol("C17.retval", "pump obj %d: returned 1 although end-of-file has been relayed completely", id);
+		if (px->pollin != want_in || px->pollout != want_out)
+			viol("C17.bands", "pump obj %d: requested bands (in=%d,out=%d) do not reflect its state (bytes=%d full=%d saw_fin=%d => in=%d,out=%d)", id,
+			     px->pollin, px->pollout, px->p.bytes, px->p.full, px->p.saw_fin, want_in, want_out);
+		if (px->p.full && px->p.bytes <= 0)
+			viol("C17.bands", "pump obj %d: marked full with %d bytes buffered", id, px->p.bytes);
+		if (px->p.full)
+			PROBE[PR_PUMP_FULL]++;
+	} else if (ret == 0) {
+		int inq = 0;
+		int bfd = RO[b].cfd[1 - (int)PL->obj[id].p[3]];
+		if (px->p.saw_fin != 2 || px->p.bytes != 0)
+			viol("C17.retval", "pump obj %d: returned 0 with saw_fin=%d and %d bytes still buffered", id, px->p.saw_fin, px->p.bytes);
+		if (!RO[a].xi[SX_PEOF])
+			viol("C17.eof", "pump obj %d: reported end-of-file although the producer never ended the input", id);
+		if (RO[b].copen[1 - (int)PL->obj[id].p[3]] && !RO[b].xi[SX_CCLOSED]) {
+			ioctl(bfd, FIONREAD, &inq);
+			if (RO[b].xi[SX_RPOS] + inq != RO[a].xi[SX_WPOS])
+				viol("C17.eof", "pump obj %d: reported done, but only %" PRId64 "+%d of the %" PRId64 " produced bytes have reached the output", id,
+				     RO[b].xi[SX_RPOS], inq, RO[a].xi[SX_WPOS]);
+		}
+		if (px->pollin || px->pollout)
+			viol("C17.bands", "pump obj %d: still requests bands (in=%d,out=%d) after completing", id, px->pollin, px->pollout);
+		px->done = 1;
+	} else {
+		/* -1: only legitimate after an I/O error: an injected one, or the consumer having gone away */
+		if (!RO[b].xi[SX_CCLOSED] && simk_stats.fault_fired[FS_WRITE] + simk_stats.fault_fired[FS_READ] + simk_stats.fault_fired[FS_SPLICE] == px->calls * 0)
+			viol("C17.retval", "pump obj %d: returned -1 although no I/O error occurred", id);
+		px->errored = 1;
+	}
+}
+
+static void pump_event(void *cookie)
+{
+	struct cookie *ck = cookie;
+	int id = ck->id, ret;
+	struct robj *o = &RO[id];
+	struct rthr *th = cur_thr();
+	struct pumpx *px = PX(o);
+
+	SEQ++;
+	if (th == NULL || (int)(th - RT) != PL->obj[id].owner) {
+		viol("C03.thread", "pump obj %d: descriptor handler ran in the wrong thread", id);
+		finish(1);
+	}
+	th->spin = 0;
+	th->cbs++;
+	th->last_kind = K_PUMP;
+	if (!o->registered || px == NULL || px->destroyed) {
+		viol("C01.stale_cb", "pump obj %d: descriptor handler invoked after the pump's descriptors were unregistered", id);
+		finish(1);
+	}
+	simk_log(100, id, K_PUMP * 16);
+	px->calls++;
+	th->api_try = 1;	/* the pump may probe its descriptors with a zero-timeout poll of its own */
+	ret = iv_fd_pump_pump(&px->p);
+	th->api_try = 0;
+	/* "input while buffer space remains, output while data is buffered": a pump whose handler is
+	 * invoked over and over without anything moving is requesting a band it cannot use */
+	if (ret == 1 && px->p.bytes == px->last_bytes && px->p.full == px->last_full && px->p.saw_fin == px->last_fin &&
+	    RO[px->achan].xi[SX_WPOS] == px->last_wpos && RO[px->bchan].xi[SX_RPOS] == px->last_rpos) {
+		if (++px->idle_calls >= 300)
+			viol("C17.bands", "pump obj %d: handler invoked %d times in a row without any progress while it keeps requesting bands (in=%d,out=%d) with bytes=%d full=%d saw_fin=%d: the requested input band does not reflect that its buffer has no space left", id,
+			     px->idle_calls, px->pollin, px->pollout, px->p.bytes, px->p.full, px->p.saw_fin);
+	} else {
+		px->idle_calls = 0;
+		px->last_bytes = px->p.bytes;
+		px->last_full = px->p.full;
+		px->last_fin = px->p.saw_fin;
+		px->last_wpos = RO[px->achan].xi[SX_WPOS];
+		px->last_rpos = RO[px->bchan].xi[SX_RPOS];
+	}
+	if (VERBOSE > 1)
+		fprintf(stderr, "pump %d: ret=%d bytes=%d full=%d fin=%d in=%d out=%d\n", id, ret, px->p.bytes, px->p.full, px->p.saw_fin, px->pollin, px->pollout);
+	pump_check_after(th, id, ret);
+	if (have_viol())
+		finish(1);
+	if (ret == 0 && !have_viol()) {
+		/* re-calling a finished pump must report 0 again */
+		int r2 = iv_fd_pump_pump(&px->p);
+		if (r2 != 0)
+			viol("C17.retval", "pump obj %d: returned %d when called again after it had reported completion", id, r2);
+	}
+	if (ret <= 0)
+		pump_destroy(th, id, 1);
+	if (have_viol())
+		finish(1);
+}
+
+static void pump_set_bands(void *cookie, int pollin, int pollout)
+{
+	struct cookie *ck = cookie;
+	struct pumpx *px = PX(&RO[ck->id]);
+	px->pollin = pollin;
+	px->pollout = pollout;
+	if (px->destroyed)
+		return;
+	iv_fd_set_handler_in(&px->fin, pollin ? pump_event : NULL);
+	iv_fd_set_handler_out(&px->fout, pollout ? pump_event : NULL);
+}
+
+static int pump_reg(struct rthr *th, int id)
+{
+	struct robj *o = &RO[id];
+	const struct pobj *po = &PL->obj[id];
+	int a = (int)po->p[0], ae = (int)po->p[1], b = (int)po->p[2], be = (int)po->p[3];
+	struct pumpx *px;
+
+	(void)th;
+	if (o->xi[0])
+		return 0;	/* one life per pump object */
+	if (!RO[a].copen[ae] || !RO[b].copen[be])
+		return 0;
+	o->memsz = sizeof(struct pumpx);
+	o->mem = calloc(1, o->memsz);
+	px = o->mem;
+	px->id = id;
+	px->achan = a;
+	px->bchan = b;
+	new_cookie(id);
+	IV_FD_INIT(&px->fin);
+	px->fin.fd = RO[a].cfd[ae];
+	px->fin.cookie = o->ck;
+	iv_fd_register(&px->fin);
+	IV_FD_INIT(&px->fout);
+	px->fout.fd = RO[b].cfd[be];
+	px->fout.cookie = o->ck;
+	iv_fd_register(&px->fout);
+	simk_fd_mark(px->fin.fd, SIMK_FDM_SHORT | SIMK_FDM_FAULT);
+	simk_fd_mark(px->fout.fd, SIMK_FDM_SHORT | SIMK_FDM_FAULT);
+	o->registered = 1;
+	o->xi[0] = 1;
+	IV_FD_PUMP_INIT(&px->p);
+	px->p.from_fd = px->fin.fd;
+	px->p.to_fd = px->fout.fd;
+	px->p.cookie = o->ck;
+	px->p.set_bands = pump_set_bands;
+	px->p.flags = (unsigned int)po->p[4];
+	iv_fd_pump_init(&px->p);
+	if (px->pollin != 1 || px->pollout != 0)
+		viol("C17.bands", "pump obj %d: after initialisation the requested bands are (in=%d,out=%d), expected (1,0)", id, px->pollin, px->pollout);
+	return 1;
+}
+
+static void pump_destroy(struct rthr *th, int id, int from_pump)
+{
+	struct robj *o = &RO[id];
+	struct pumpx *px = PX(o);
+
+	(void)th; (void)from_pump;
+	if (px == NULL || px->destroyed)
+		return;
+	iv_fd_pump_destroy(&px->p);
+	px->destroyed = 1;
+	iv_fd_unregister(&px->fin);
+	iv_fd_unregister(&px->fout);
+	simk_fd_mark(px->fin.fd, 0);
+	simk_fd_mark(px->fout.fd, 0);
+	o->registered = 0;
+	o->xi[1] = px->done;
+	o->xi[2] = px->errored;
+	o->gen++;
+	obj_free_mem(id);
+}
+
+static int pump_drain_consumers(void)
+{
+	int i, progress = 0;
+	for (i = 0; i < PL->nobj; i++) {
+		int b, be;
+		if (PL->obj[i].kind != K_PUMP || !RO[i].xi[0])
+			continue;
+		b = (int)PL->obj[i].p[2];
+		be = 1 - (int)PL->obj[i].p[3];
+		while (RO[b].copen[be] && !RO[b].xi[SX_CEOF] && chan_read(b, be, 65536) > 0)
+			progress = 1;
+	}
+	return progress;
+}
+
+static void pump_obligations(void)
+{
+	int i;
+	for (i = 0; i < PL->nobj; i++) {
+		int a, b;
+		if (PL->obj[i].kind != K_PUMP || !RO[i].xi[0])
+			continue;
+		a = (int)PL->obj[i].p[0];
+		b = (int)PL->obj[i].p[2];
+		if (RO[b].xi[SX_CCLOSED] || RO[i].xi[2] || (RO[i].registered && PX(&RO[i])->errored))
+			continue;	/* after an I/O error the stream may stop short (never differ) */
+		if (!RO[i].registered && !RO[i].xi[1])
+			continue;	/* destroyed in mid-stream by the application */
+		if (!RT[PL->obj[i].owner].in_main && RO[i].registered)
+			continue;
+		if (RO[b].xi[SX_RPOS] != RO[a].xi[SX_WPOS])
+			viol("C17.complete", "quiescence: pump obj %d has delivered %" PRId64 " of the %" PRId64 " bytes produced, the consumer has drained everything and nothing moves any more", i,
+			     RO[b].xi[SX_RPOS], RO[a].xi[SX_WPOS]);
+		else if (RO[a].xi[SX_PEOF] && RO[i].registered && !PX(&RO[i])->done)
+			viol("C17.complete", "quiescence: pump obj %d: the input ended and all bytes were delivered, but the pump never reported completion", i);
+	}
+}
+
+/* =====================================================================================
+ * C20: iv_inotify
+ * ===================================================================================== */
+#define NQ 1024
+struct irec { int wd; uint32_t mask, cookie, len; char name[48]; };
+struct iq { struct irec r[NQ]; int head, tail; };
+static struct iq *IQ[MAXOBJ];
+static char ino_root[96];
+static const char *ino_paths[8] = { "d0", "d0/a", "d0/b", "d1", "d1/x", "f0", "f1", "." };
+#define WX_WD	0
+#define WX_AUTO	1	/* dropped by the library itself (IN_IGNORED / one-shot) */
+#define IX_FD	0
+
+static void ino_path(int idx, char *out, size_t n, const char *suffix)
+{
+	snprintf(out, n, "%s/%s%s", ino_root, ino_paths[idx & 7], suffix ? suffix : "");
+}
+
+static void ino_setup(void)
+{
+	char p[200];
+	int fd, i;
+	snprintf(ino_root, sizeof(ino_root), "/dev/shm/ivsim-ino-%d", (int)getpid());
+	mkdir(ino_root, 0700);
+	ino_path(0, p, sizeof(p), NULL); mkdir(p, 0700);
+	ino_path(3, p, sizeof(p), NULL); mkdir(p, 0700);
+	for (i = 0; i < 7; i++) {
+		if (i == 0 || i == 3)
+			continue;
+		ino_path(i, p, sizeof(p), NULL);
+		fd = (int)syscall(SYS_openat, AT_FDCWD, p, O_CREAT | O_WRONLY, 0600);
+		if (fd >= 0)
+			syscall(SYS_close, fd);
+	}
+}
+
+static int fsop(int idx, int kind)
+{
+	char p[200], q[200];
+	int fd;
+	struct stat st;
+
+	if (!ino_root[0])
+		return 0;
+	idx &= 7;
+	ino_path(idx, p, sizeof(p), NULL);
+	if (idx == 0 || idx == 3 || idx == 7) {
+		/* directories: create / remove a scratch entry inside */
+		snprintf(q, sizeof(q), "%s/t%d", p, kind);
+		if (kind & 1) {
+			fd = (int)syscall(SYS_openat, AT_FDCWD, q, O_CREAT | O_WRONLY, 0600);
+			if (fd >= 0)
+				syscall(SYS_close, fd);
+		} else {
+			syscall(SYS_unlinkat, AT_FDCWD, q, 0);
+		}
+		return 1;
+	}
+	switch (kind % 7) {
+	case 0:
+		fd = (int)syscall(SYS_openat, AT_FDCWD, p, O_CREAT | O_WRONLY | O_TRUNC, 0600);
+		if (fd >= 0)
+			syscall(SYS_close, fd);
+		break;
+	case 1:
+		fd = (int)syscall(SYS_openat, AT_FDCWD, p, O_WRONLY | O_APPEND, 0600);
+		if (fd >= 0) {
+			syscall(SYS_write, fd, "x", 1L);
+			syscall(SYS_close, fd);
+		}
+		break;
+	case 2:
+		syscall(SYS_unlinkat, AT_FDCWD, p, 0);
+		break;
+	case 3:
+		ino_path(idx, q, sizeof(q), ".r");
+		if (stat(p, &st) == 0)
+			syscall(SYS_renameat, AT_FDCWD, p, AT_FDCWD, q);
+		else
+			syscall(SYS_renameat, AT_FDCWD, q, AT_FDCWD, p);
+		break;
+	case 4:
+		if (stat(p, &st) == 0)
+			syscall(SYS_fchmodat, AT_FDCWD, p, (st.st_mode & 0777) ^ 0040, 0);
+		break;
+	case 5:
+		fd = (int)syscall(SYS_openat, AT_FDCWD, p, O_RDONLY, 0);
+		if (fd >= 0) {
+			char c;
+			syscall(SYS_read, fd, &c, 1L);
+			syscall(SYS_close, fd);
+		}
+		break;
+	case 6:
+		fd = (int)syscall(SYS_openat, AT_FDCWD, p, O_CREAT | O_WRONLY, 0600);
+		if (fd >= 0) {
+			syscall(SYS_write, fd, "yy", 2L);
+			syscall(SYS_close, fd);
+		}
+		break;
+	}
+	return 1;
+}
+
+static void h_watch(void *ck, struct inotify_event *ev)
+{
+	generic_cb(ck, K_WATCH, 0, (int64_t)(uintptr_t)ev, 0);
+}
+
+static int watch_live(int inst, int wd)
+{
+	int i;
+	for (i = 0; i < PL->nobj; i++)
+		if (PL->obj[i].kind == K_WATCH && PL->obj[i].p[0] == inst && RO[i].registered && RO[i].xi[WX_WD] == wd)
+			return i;
+	return -1;
+}
+
+static void obs_read_data(int tid, int fd, const void *buf, long n)
+{
+	int i;
+	const char *p = buf, *end = p + n;
+	(void)tid;
+	for (i = 0; i < PL->nobj; i++)
+		if (PL->obj[i].kind == K_INOT && RO[i].registered && RO[i].xi[IX_FD] == fd)
+			break;
+	if (i == PL->nobj)
+		return;
+	if (IQ[i] == NULL)
+		IQ[i] = calloc(1, sizeof(struct iq));
+	{
+		int nrec = 0;
+		/* the independent parse of exactly the bytes the kernel handed to the library */
+		while (p + sizeof(struct inotify_event) <= end) {
+			struct inotify_event ev;
+			struct irec *r;
+			memcpy(&ev, p, sizeof(ev));
+			if (p + sizeof(ev) + ev.len > end)
+				break;
+			r = &IQ[i]->r[IQ[i]->tail % NQ];
+			r->wd = ev.wd;
+			r->mask = ev.mask;
+			r->cookie = ev.cookie;
+			r->len = ev.len;
+			memset(r->name, 0, sizeof(r->name));
+			if (ev.len)
+				strncpy(r->name, p + sizeof(ev), sizeof(r->name) - 1);
+			IQ[i]->tail++;
+			p += sizeof(ev) + ev.len;
+			nrec++;
+		}
+		if (nrec > 1)
+			PROBE[PR_INOT_MULTI]++;
+	}
+}
+
+/* records still queued that a live watch should have received */
+static void inot_check_leftover(int inst, const char *when)
+{
+	struct iq *q = IQ[inst];
+	if (q == NULL)
+		return;
+	while (q->head < q->tail) {
+		struct irec *r = &q->r[q->head % NQ];
+		int w = RO[inst].registered ? watch_live(inst, r->wd) : -1;
+		if (w >= 0) {
+			viol("C20.route", "inotify obj %d: an event (wd %d mask 0x%x name '%s') read from the kernel was never delivered to watch obj %d (%s)", inst, r->wd, r->mask, r->name, w, when);
+			return;
+		}
+		q->head++;
+	}
+}
+
+static void watch_cb(struct rthr *th, int id, struct inotify_event *ev)
+{
+	struct robj *o = &RO[id];
+	int inst = (int)PL->obj[id].p[0];
+	struct iq *q = IQ[inst];
+
+	(void)th;
+	PROBE[PR_INOT_CB]++;
+	if (q == NULL) {
+		viol("C20.route", "watch obj %d: handler invoked although nothing was read from its inotify descriptor", id);
+		return;
+	}
+	for (;;) {
+		struct irec *r;
+		int w;
+		if (q->head >= q->tail) {
+			viol("C20.route", "watch obj %d: handler invoked (wd %d mask 0x%x) but no such event remains in what the kernel returned", id, ev->wd, ev->mask);
+			return;
+		}
+		r = &q->r[q->head % NQ];
+		w = watch_live(inst, r->wd);
+		if (w < 0) {
+			q->head++;	/* no live watch for it: legitimately dropped */
+			continue;
+		}
+		q->head++;
+		if (w != id || r->wd != ev->wd || r->mask != ev->mask || r->cookie != ev->cookie || r->len != ev->len ||
+		    (ev->len && strncmp(r->name, ev->name, sizeof(r->name) - 1) != 0))
+			viol("C20.route", "watch obj %d got event (wd %d mask 0x%x len %u name '%s'); the next event in kernel order belongs to watch obj %d (wd %d mask 0x%x len %u name '%s')",
+			     id, ev->wd, ev->mask, ev->len, ev->len ? ev->name : "", w, r->wd, r->mask, r->len, r->name);
+		break;
+	}
+	if ((ev->mask & IN_IGNORED) || (PL->obj[id].p[2] & IN_ONESHOT)) {
+		/* the library has dropped the watch by itself, before calling us */
+		o->registered = 0;
+		o->gen++;
+		o->xi[WX_AUTO] = 1;
+	}
+}
+
+static int inot_reg(struct rthr *th, int id)
+{
+	struct robj *o = &RO[id];
+	(void)th;
+	o->memsz = sizeof(struct iv_inotify);
+	o->mem = malloc(o->memsz);
+	memset(o->mem, 0xA5, o->memsz);
+	IV_INOTIFY_INIT((struct iv_inotify *)o->mem);
+	if (iv_inotify_register(o->mem) != 0) {
+		obj_free_mem(id);
+		return 1;
+	}
+	o->registered = 1;
+	o->xi[IX_FD] = ((struct iv_inotify *)o->mem)->fd.fd;
+	if (IQ[id] != NULL)
+		IQ[id]->head = IQ[id]->tail = 0;
+	return 1;
+}
+
+static int inot_unreg(struct rthr *th, int id)
+{
+	struct robj *o = &RO[id];
+	int i;
+	(void)th;
+	iv_inotify_unregister(o->mem);
+	o->registered = 0;
+	o->gen++;
+	/* its watches go with it: their memory is the caller's to release */
+	for (i = 0; i < PL->nobj; i++)
+		if (PL->obj[i].kind == K_WATCH && PL->obj[i].p[0] == id && RO[i].registered) {
+			RO[i].registered = 0;
+			RO[i].gen++;
+			obj_free_mem(i);
+		}
+	if (IQ[id] != NULL)
+		IQ[id]->head = IQ[id]->tail = 0;
+	obj_free_mem(id);
+	return 1;
+}
+
+static int watch_reg(struct rthr *th, int id)
+{
+	struct robj *o = &RO[id];
+	const struct pobj *po = &PL->obj[id];
+	int inst = (int)po->p[0], i;
+	struct iv_inotify_watch *w;
+	char path[200];
+
+	(void)th;
+	if (inst < 0 || inst >= PL->nobj || PL->obj[inst].kind != K_INOT || !RO[inst].registered)
+		return 0;
+	/* one watch per path and instance: the kernel would hand out the same watch descriptor twice */
+	for (i = 0; i < PL->nobj; i++)
+		if (i != id && PL->obj[i].kind == K_WATCH && PL->obj[i].p[0] == inst && RO[i].registered &&
+		    (PL->obj[i].p[1] & 7) == (po->p[1] & 7))
+			return 0;
+	ino_path((int)po->p[1], path, sizeof(path), NULL);
+	o->memsz = sizeof(struct iv_inotify_watch) + sizeof(path);
+	o->mem = malloc(o->memsz);
+	memset(o->mem, 0xA5, sizeof(struct iv_inotify_watch));
+	w = o->mem;
+	IV_INOTIFY_WATCH_INIT(w);
+	memcpy((char *)(w + 1), path, sizeof(path));
+	w->inotify = RO[inst].mem;
+	w->pathname = (char *)(w + 1);
+	w->mask = (uint32_t)po->p[2];
+	w->cookie = new_cookie(id);
+	w->handler = h_watch;
+	if (iv_inotify_watch_register(w) != 0) {
+		obj_free_mem(id);
+		return 1;
+	}
+	/* an inode that is already watched through another path of this instance yields the same wd */
+	for (i = 0; i < PL->nobj; i++)
+		if (i != id && PL->obj[i].kind == K_WATCH && PL->obj[i].p[0] == inst && RO[i].registered && RO[i].xi[WX_WD] == w->wd) {
+			/* cannot happen with distinct files; keep the model honest if it does */
+			iv_inotify_watch_unregister(w);
+			obj_free_mem(id);
+			return 1;
+		}
+	o->registered = 1;
+	o->xi[WX_WD] = w->wd;
+	o->xi[WX_AUTO] = 0;
+	return 1;
+}
+
+static int watch_unreg(struct rthr *th, int id)
+{
+	struct robj *o = &RO[id];
+	(void)th;
+	iv_inotify_watch_unregister(o->mem);
+	o->registered = 0;
+	o->gen++;
+	obj_free_mem(id);
+	return 1;
+}
+
+/* =====================================================================================
+ * dispatch
+ * ===================================================================================== */
+int ext4_live(int id)
+{
+	switch (PL->obj[id].kind) {
+	case K_PUMP:
+	case K_INOT:
+		return RO[id].registered;
+	}
+	return 0;
+}
+
+int ext4_reg(struct rthr *th, int id, const struct pop *op)
+{
+	(void)op;
+	switch (PL->obj[id].kind) {
+	case K_PUMP:
+		return pump_reg(th, id);
+	case K_INOT:
+		return inot_reg(th, id);
+	case K_WATCH:
+		return watch_reg(th, id);
+	}
+	return 0;
+}
+
+int ext4_unreg(struct rthr *th, int id, int keep)
+{
+	(void)keep;
+	switch (PL->obj[id].kind) {
+	case K_PUMP:
+		pump_destroy(th, id, 0);
+		return 1;
+	case K_INOT:
+		return inot_unreg(th, id);
+	case K_WATCH:
+		return watch_unreg(th, id);
+	}
+	return 0;
+}
+
+int ext4_op(struct rthr *th, const struct pop *op)
+{
+	(void)th;
+	if (op->op == OP_FSOP) {
+		simk_log(101, OP_FSOP, op->d * 16 + op->a);
+		return fsop((int)op->d, (int)op->a);
+	}
+	return 0;
+}
+
+void ext4_cb(struct rthr *th, int id, int kind, int band, int64_t x1, int64_t x2)
+{
+	(void)band; (void)x2;
+	if (kind == K_WATCH && (RO[id].registered))
+		watch_cb(th, id, (struct inotify_event *)(uintptr_t)x1);
+}
+
+void ext4_cb_exit(struct rthr *th, int id, int kind)
+{
+	(void)th;
+	if (kind == K_WATCH && RO[id].xi[WX_AUTO] && !RO[id].registered && RO[id].mem != NULL) {
+		RO[id].xi[WX_AUTO] = 0;
+		obj_free_mem(id);
+	}
+}
+
 int ext4_foreign_thread_ok(int id, int kind) { (void)id; (void)kind; return 0; }
 int ext4_nesting_ok(int kind, int outer_kind) { (void)kind; (void)outer_kind; return 0; }
 int ext4_stale_ok(int id, int kind, int band) { (void)id; (void)kind; (void)band; return 0; }
+
 void ext4_wait_block(struct rthr *th) { (void)th; }
-void ext4_teardown(struct rthr *th) { (void)th; }
-void ext4_post_main(struct rthr *th) { (void)th; }
-void ext4_install_obs(void) { }
-void ext4_run_begin(void) { }
-void ext4_obligations(void) { }
+
+void ext4_wait_enter(struct rthr *th)
+{
+	int i, t = (int)(th - RT);
+	for (i = 0; i < PL->nobj; i++)
+		if (PL->obj[i].kind == K_INOT && PL->obj[i].owner == t && IQ[i] != NULL)
+			inot_check_leftover(i, "by the time the loop polled again");
+}
+
+void ext4_teardown(struct rthr *th)
+{
+	int i, t = (int)(th - RT);
+	/* watches before their instance */
+	for (i = 0; i < PL->nobj; i++)
+		if (PL->obj[i].owner == t && PL->obj[i].kind == K_WATCH && RO[i].registered && (PL->seed & 2))
+			watch_unreg(th, i);
+}
+void ext4_post_main(struct rthr *th) { ext4_teardown(th); }
+
+void ext4_install_obs(void)
+{
+	int i;
+	for (i = 0; i < PL->nobj; i++)
+		if (PL->obj[i].kind == K_INOT) {
+			simk_obs.read_data = obs_read_data;
+			break;
+		}
+}
+
+void ext4_run_begin(void)
+{
+	int i;
+	ino_root[0] = 0;
+	for (i = 0; i < PL->nobj; i++)
+		if (PL->obj[i].kind == K_INOT) {
+			ino_setup();
+			break;
+		}
+}
+
+int ext4_quiesce_progress(void) { return pump_drain_consumers(); }
+
+void ext4_obligations(void)
+{
+	int i;
+	pump_obligations();
+	for (i = 0; i < PL->nobj; i++)
+		if (PL->obj[i].kind == K_INOT && RO[i].registered && IQ[i] != NULL && RT[PL->obj[i].owner].in_main)
+			inot_check_leftover(i, "at quiescence");
+}
+
 void ext4_end_of_run(int all_exited) { (void)all_exited; }
